@@ -26,6 +26,9 @@ let handle (line : string) : string =
       string_of_bytes ((if cmd = "mutate" || cmd = "mutatek" then model_mutate else model_mutate_one) incl o x d v)
   | ["jpstr"; hex; delim] ->
       string_of_bytes (model_jpstr (bytes_of_hex hex) (List.hd (bytes_of_hex delim)))
+  | ["write"; indent; mask; limit; data] ->
+      let d = parse_jv { s = data; i = 0 } in
+      string_of_bytes (model_write (z_of_int (int_of_string indent)) (z_of_int (int_of_string mask)) (z_of_int (int_of_string limit)) d)
   | ["match"; eq; data] ->
       let e = parse_eqn { s = eq; i = 0 } in
       let d = parse_jv { s = data; i = 0 } in
